@@ -41,6 +41,18 @@ class Check:
     stats: dict[str, Any] = field(default_factory=dict)
     t0: float = field(default_factory=time.time)
     _known: list[dict] | None = None
+    soft_errors: list[str] = field(default_factory=list)
+
+    def section(self, fn, *args, **kwargs):
+        """Run one independent group of rules; an AnalysisError there is recorded and the
+        other groups still run (so that one unknown shape does not hide violations)."""
+        from .loader import AnalysisError
+
+        try:
+            return fn(*args, **kwargs)
+        except AnalysisError as exc:
+            self.soft_errors.append(f"{getattr(fn, '__name__', 'section')}: {exc}")
+            return None
 
     # ------------------------------------------------------------------ record
     def ok(self, rule: str, where: str, what: str, detail: Any = None) -> None:
@@ -93,6 +105,8 @@ class Check:
 
     def finish(self, analysis_error: str | None = None) -> int:
         wall = time.time() - self.t0
+        if self.soft_errors:
+            analysis_error = "; ".join([*( [analysis_error] if analysis_error else []), *self.soft_errors])
         lines: list[str] = []
         replay_paths: list[str] = []
         for inst in self.known_hits:
@@ -122,9 +136,9 @@ class Check:
         )
         if not self.quiet:
             print("\n".join(lines))
-        if analysis_error:
-            return 2
-        return 1 if self.violations else 0
+        if self.violations:
+            return 1
+        return 2 if analysis_error else 0
 
     def obligations(self) -> list[Instance]:
         return [i for i in self.instances if i.verdict in {"ok", "violation", "known"}]
